@@ -495,9 +495,11 @@ func c14ephemeral(c *an.Ctx) {
 }
 
 // regCategory returns the constant Category of a Registration composite value.
-func regCategory(v ssa.Value) string {
+func regCategory(v ssa.Value) string { return regCategoryD(v, 0) }
+
+func regCategoryD(v ssa.Value, depth int) string {
 	u, ok := an.Strip(v).(*ssa.UnOp)
-	if !ok {
+	if !ok || depth > 4 {
 		return ""
 	}
 	al, ok := u.X.(*ssa.Alloc)
@@ -511,6 +513,14 @@ func regCategory(v ssa.Value) string {
 					s, _ := an.ConstString(st.Val)
 					return s
 				}
+			}
+		}
+	}
+	// a copy of another struct variable (a by-value parameter of an inlined helper): `*al = *other`
+	for _, r := range an.Referrers(al) {
+		if st, ok := r.(*ssa.Store); ok && st.Addr == ssa.Value(al) {
+			if s := regCategoryD(st.Val, depth+1); s != "" {
+				return s
 			}
 		}
 	}
